@@ -1326,10 +1326,37 @@ private:
           str += '\t';
           break;
         case 'u':
-          // Unicode escape - simplified implementation
-          _pos += 4;  // Skip the 4 hex digits for now
-          str += '?'; // Placeholder
+        {
+          // \uXXXX, with UTF-16 surrogate pairs combined (RFC 8259 section 7).
+          // A lone surrogate has no scalar value and decodes to U+FFFD.
+          std::uint32_t cp = 0;
+          if (!_parseHex4(_pos + 1, cp))
+          {
+            _error = "Invalid unicode escape";
+            return false;
+          }
+          _pos += 4; // now on the last hex digit
+          if (cp >= 0xD800 && cp <= 0xDBFF)
+          {
+            std::uint32_t lo = 0;
+            if (_pos + 2 < _text.size() && _text[_pos + 1] == '\\' && _text[_pos + 2] == 'u' &&
+                _parseHex4(_pos + 3, lo) && lo >= 0xDC00 && lo <= 0xDFFF)
+            {
+              cp = 0x10000 + ((cp - 0xD800) << 10) + (lo - 0xDC00);
+              _pos += 6;
+            }
+            else
+            {
+              cp = 0xFFFD;
+            }
+          }
+          else if (cp >= 0xDC00 && cp <= 0xDFFF)
+          {
+            cp = 0xFFFD;
+          }
+          _appendUtf8(str, cp);
           break;
+        }
         default:
           _error = "Invalid escape sequence";
           return false;
@@ -1351,6 +1378,57 @@ private:
     ++_pos; // Skip closing quote
     out = Json(std::move(str));
     return true;
+  }
+
+  /// \brief Read exactly four hex digits at \p at (bounds-checked).
+  bool _parseHex4(std::size_t at, std::uint32_t &out) const
+  {
+    if (at + 4 > _text.size())
+    {
+      return false;
+    }
+    std::uint32_t v = 0;
+    for (std::size_t k = 0; k < 4; ++k)
+    {
+      const char h = _text[at + k];
+      v <<= 4;
+      if (h >= '0' && h <= '9')
+        v |= static_cast<std::uint32_t>(h - '0');
+      else if (h >= 'a' && h <= 'f')
+        v |= static_cast<std::uint32_t>(h - 'a' + 10);
+      else if (h >= 'A' && h <= 'F')
+        v |= static_cast<std::uint32_t>(h - 'A' + 10);
+      else
+        return false;
+    }
+    out = v;
+    return true;
+  }
+
+  static void _appendUtf8(std::string &s, std::uint32_t cp)
+  {
+    if (cp <= 0x7F)
+    {
+      s += static_cast<char>(cp);
+    }
+    else if (cp <= 0x7FF)
+    {
+      s += static_cast<char>(0xC0 | (cp >> 6));
+      s += static_cast<char>(0x80 | (cp & 0x3F));
+    }
+    else if (cp <= 0xFFFF)
+    {
+      s += static_cast<char>(0xE0 | (cp >> 12));
+      s += static_cast<char>(0x80 | ((cp >> 6) & 0x3F));
+      s += static_cast<char>(0x80 | (cp & 0x3F));
+    }
+    else
+    {
+      s += static_cast<char>(0xF0 | (cp >> 18));
+      s += static_cast<char>(0x80 | ((cp >> 12) & 0x3F));
+      s += static_cast<char>(0x80 | ((cp >> 6) & 0x3F));
+      s += static_cast<char>(0x80 | (cp & 0x3F));
+    }
   }
 
   bool _parseArray(Json &out, std::size_t depth)
